@@ -225,7 +225,7 @@ def oracle(case, obs):
     if k == "seg":
         if obs == "!":
             return None
-        segs = [bytes.fromhex(x) for x in obs[1:-1].split(",") if x]
+        segs = [] if obs == "[]" else [bytes.fromhex(x) for x in obs[1:-1].split(",")]
         for s in segs:
             if s in (b"", b".", b"..") or b"/" in s or b"\x00" in s:
                 return Failure(case, f"toSegments returned the segment {s!r}", "toSegments-dirty-segment")
@@ -320,17 +320,17 @@ def gen(rng, tier):
     quick = tier == "quick"
     cases = []
     for cwd in ([], ["a"], ["a", "b"]):
-        for s in _exhaustive(["/", ".", "a", "\x00"], (4 if cwd == ["a"] else 3) if quick else 6):
+        for s in _exhaustive(["/", ".", "a", "\x00"], (4 if cwd == ["a"] else 3) if quick else 5):
             cases.append({"k": "seg", "cwd": cwd, "path": s})
-    for _ in range(250 if quick else 6000):
+    for _ in range(250 if quick else 3000):
         cwd = [rng.choice(["a", "b", "x y", "é"]) for _ in range(rng.randrange(0, 4))]
         cases.append({"k": "seg", "cwd": cwd, "path": _escape_path(rng) if rng.random() < 0.3 else _rand_path(rng, 8)})
-    for _ in range(120 if quick else 2000):
+    for _ in range(120 if quick else 1000):
         root = rng.choice(["/", "//", "/srv/ftp", "/srv/ftp/", "/srv//ftp/../ftp", "/tmp/foo"])
         segs = [rng.choice(["a", "b", "ftp", "foobar", "f.txt", "...", "x y", "~", "\\", "..", ".", "", "a/b", "\x00"])
                 for _ in range(rng.randrange(0, 5))]
         cases.append({"k": "path", "root": root, "segs": segs})
-    for _ in range(200 if quick else 3000):
+    for _ in range(200 if quick else 1500):
         cmds = [_rand_cmd(rng, 0) for _ in range(rng.randrange(1, 9))]
         cases.append({"k": "sess", "cmds": cmds})
     return cases
@@ -398,7 +398,7 @@ SPEC = Spec(
     model_equal=model_equal,
     nontrivial=lambda c, o: c["k"] != "seg" or o != "!",
     histogram=lambda c, o: c["k"] + (":refused" if o in ("!", "X") else ""),
-    rule="toSegments for EVERY path over {'/','.','a',NUL} up to length 3-4 (thorough 6) under cwd [], [a], [a,b], plus "
+    rule="toSegments for EVERY path over {'/','.','a',NUL} up to length 3-4 (thorough 5) under cwd [], [a], [a,b], plus "
          "random hostile paths ('..' runs aimed at prefix-sharing siblings of the root, NUL, backslash, empty "
          "segments); FTPShell._path on random segment lists (incl. dirty ones) for roots /, //, /srv/ftp, /tmp/foo; "
          "sessions of 1-8 commands (CWD CDUP LIST NLST SIZE MDTM RETR STOR DELE MKD RMD RNFR/RNTO) against a real "
